@@ -192,7 +192,11 @@ static int encode_special_opd(struct instr *instrc, int m, int i) {
 int encode_operands(struct instr *instrc) {
 
   // xchg instruction with RM operand encoding using rax or al register
-  if (NAME(instrc->key, xchg) && !instrc->mem_disp) {
+  // ('xchg eax, eax' must keep the ModRM form: the one-byte form 0x90 is NOP
+  // and does not zero-extend rax)
+  bool xchg_eax_eax = instrc->opd[0].reg == (asm_reg)(reg32 | al) &&
+                      instrc->opd[1].reg == (asm_reg)(reg32 | al);
+  if (NAME(instrc->key, xchg) && !instrc->mem_disp && !xchg_eax_eax) {
     if ((MODE_MASK & instrc->opd[0].reg) > noext8 &&
         (REG_MASK & instrc->opd[0].reg) == al) {
       // swap operands
